@@ -30,7 +30,7 @@ def main(tier, seed):
     n = 250 if tier == "quick" else 2500
     fams = [("capture", scenarios.capture_scenarios()), ("exceptions", scenarios.exception_scenarios()),
             ("fibers", scenarios.fiber_scenarios(rng, n, nfib=3, exhaustive_small=False)), ("classes", scenarios.class_scenarios(rng, n)),
-            ("iteration", scenarios.iteration_scenarios(rng, n)), ("errors", scenarios.error_scenarios(rng, n)),
+            ("iteration", scenarios.iteration_scenarios(rng, n, exhaustive=False)), ("errors", scenarios.error_scenarios(rng, n)),
             ("modules", scenarios.module_scenarios(rng, n)), ("snippets", scenarios.snippet_scenarios(rng, n)),
             ("hashmap", scenarios.hashmap_scenarios(rng, n, exhaustive_pairs=(tier == "thorough"))),
             ("thrownvalues", scenarios.thrown_value_scenarios()), ("handlerintact", scenarios.handler_intact_scenarios()),
